@@ -1044,7 +1044,10 @@ def network_from_a_checked_mask(ctx: Ctx, rep: Report, rid: str = "R05.18") -> N
     undocumented "has host bits set" ValueError escapes for a legal line."""
     rep.rule(rid)
     n = 0
+    from .normalise import normalised as _nrm
+
     for f in [g for g in ctx.prog.funcs if g.module.name.endswith("wildcard")]:
+        f = _nrm(ctx, f, "ifexp")  # `suffix = mask if is_mask(mask) else ""` is a test like any other
         cfg = ctx.cfg(f)
         inv = [nd for nd in cfg.live if nd.kind == "stmt" and isinstance(nd.ast, (ast.Assign, ast.AnnAssign)) and getattr(nd.ast, "value", None) is not None and any(isinstance(c, ast.Call) and src(c.func).endswith("invert_mask") for c in ast.walk(nd.ast.value))]
         nets = [nd for nd in cfg.live if nd.ast is not None and nd.kind in ("stmt", "cond") and any(isinstance(c, ast.Call) and src(c.func).endswith("IPv4Network") for c in ast.walk(nd.ast))]
